@@ -160,7 +160,11 @@ func init() {
 								if cfg&1 == 0 && cs != 1 {
 									continue
 								}
-								add(tpl, lp[0], lp[1], idv, cfg, -1, cs)
+								skip := 0
+								if lp[0] == 1 && idv == 0 {
+									skip = -1 // all eight Skip* flags symbolic on the middle length class
+								}
+								add(tpl, lp[0], lp[1], idv, cfg, skip, cs)
 							}
 						}
 					}
@@ -170,7 +174,7 @@ func init() {
 		},
 		bounds: map[string]any{
 			"quick":    map[string]any{"templates": "T0-T7 (T1,T5,T6,T7 across 8 option sets; T0,T2,T3,T4 once)", "string_len": "0,1,3", "payload_len": "0..6", "messages": "<=3", "channels": "<=2", "symbolic": "every byte of every string/payload, sequence, log/publish/create times, lexer validate flag; Skip* flags symbolic for T0"},
-			"thorough": map[string]any{"templates": "T0-T7", "string_len": "0,1,3", "payload_len": "0,2,5(+1)", "ids": "{1,2} and {65535,0}", "options": "chunked x crc x xor-codec x skipMagic x overrideLibrary (11 combos) x chunk size {1,60,100000}; all 8 Skip* flags symbolic", "symbolic": "as quick"},
+			"thorough": map[string]any{"templates": "T0-T7", "string_len": "0,1,3", "payload_len": "0,2,5(+1)", "ids": "{1,2} and {65535,0}", "options": "chunked x crc x xor-codec x skipMagic x overrideLibrary (11 combos) x chunk size {1,60,100000}; all 8 Skip* flags symbolic on the middle length class, off elsewhere", "symbolic": "as quick"},
 		},
 		outside:     outsideCommon,
 		assumptions: append([]string{"while known finding C04-K1 is listed: no message log time equals 2^64-1"}, commonAssumptions...),
@@ -443,6 +447,7 @@ func init() {
 			if tier == "quick" {
 				add(5, 3, 1, 1, 512)
 				add(6, 2, 1000, 0, 400)
+				add(5, 1, 1, 1, 512) // no CRCs in the file, validating lexer
 				return js
 			}
 			for _, tpl := range []int{1, 5, 6, 7} {
@@ -453,11 +458,11 @@ func init() {
 			return js
 		},
 		bounds: map[string]any{
-			"quick":    map[string]any{"files": "T5 chunked (one chunk per message, CRC, validating lexer) and T6 unchunked (with an attachment and a metadata record)", "cut": "cut position L symbolic, the range 0..len(file)-1 partitioned into cells of 16 bytes (one job per cell; the union is every position)", "symbolic": "L, every field value and byte of the file", "readers": "lexer with attachment callback; non-indexed message iterator"},
+			"quick":    map[string]any{"files": "T5 chunked (one chunk per message; with CRCs and without, validating lexer) and T6 unchunked (with an attachment and a metadata record)", "cut": "cut position L symbolic, the range 0..len(file)-1 partitioned into cells of 16 bytes (one job per cell; the union is every position)", "symbolic": "L, every field value and byte of the file", "readers": "lexer with attachment callback; non-indexed message iterator"},
 			"thorough": map[string]any{"files": "T1,T5,T6,T7 x 6 option sets (chunk sizes 1/60/1000, CRC on/off, xor codec, validating or not)", "cut": "as quick"},
 		},
 		outside:     append([]string{"files longer than 640 bytes"}, outsideCommon...),
-		assumptions: commonAssumptions,
+		assumptions: append([]string{"stored chunk CRCs are non-zero (with the CRC uninterpreted, 0 is otherwise a feasible value and means 'validation not available'; a real CRC-32 is 0 with probability 2^-32)"}, commonAssumptions...),
 	}
 }
 
@@ -511,11 +516,11 @@ func init() {
 			return js
 		},
 		bounds: map[string]any{
-			"quick":    map[string]any{"file": "T5 chunked (one chunk per message, CRC on), validating lexer", "readers": "lexer; non-indexed iterator; indexed iterator in file order and in log-time order", "fragmentation": "one short read at symbolic read-call index J (0..95, cells of 8; beyond the last call the run is the plain one) returning symbolic K bytes (1..9: every split of a 9-byte record header); every read limited to 1, 2, 5 bytes; final bytes delivered together with io.EOF", "io_error": "sticky error at symbolic byte position E (cells of 16 over the whole file), delivered on its own call or together with the last good bytes; for index-based reads also a failure of the Seek call with symbolic index S in 0..15 (more Seek calls than the reads make)", "symbolic": "J, K, E, every field value and byte of the file"},
+			"quick":    map[string]any{"file": "T5 chunked (one chunk per message, CRC on), validating lexer", "readers": "lexer; non-indexed iterator; indexed iterator in file order and in log-time order", "fragmentation": "one short read at symbolic read-call index J (0..95, cells of 8; beyond the last call the run is the plain one) returning symbolic K bytes (1..9: every split of a 9-byte record header); every read limited to 1, 2, 5 bytes; final bytes delivered together with io.EOF", "io_error": "error at symbolic byte position E (cells of 16 over the whole file), delivered on its own call or together with the last good bytes: sticky for the sequential readers; for index-based reads byte E alone is unreadable (reads that do not touch it succeed, and a read that never needs it must return everything); for index-based reads also a failure of the Seek call with symbolic index S in 0..15 (more Seek calls than the reads make)", "symbolic": "J, K, E, every field value and byte of the file"},
 			"thorough": map[string]any{"files": "T1,T5,T6,T7 under 7 option sets (incl. xor codec, unchunked, non-validating)", "readers": "as quick + reverse log-time order", "fragmentation": "J over 0..159", "io_error": "both delivery forms at every position"},
 		},
 		outside:     append([]string{"a one-shot (non-sticky) error delivered together with the last bytes a ReadFull needs: io.ReadAtLeast drops it by specification", "more than one short read per run (the every-read-limited schedules cover repeated fragmentation)"}, outsideCommon...),
-		assumptions: commonAssumptions,
+		assumptions: append([]string{"stored chunk CRCs are non-zero (with the CRC uninterpreted, 0 is otherwise a feasible value and means 'validation not available'; a real CRC-32 is 0 with probability 2^-32)"}, commonAssumptions...),
 	}
 }
 
@@ -535,7 +540,7 @@ func init() {
 				tpls = []int{1, 2, 5, 6}
 			}
 			for _, tpl := range tpls {
-				for _, cfg := range []int{3, 7} {
+				for _, cfg := range []int{3, 7, 7 | 32} {
 					for c := 0; c < 4; c++ {
 						ch(tpl, cfg, 1, c)
 					}
@@ -558,7 +563,7 @@ func init() {
 			return js
 		},
 		bounds: map[string]any{
-			"quick":    map[string]any{"chunk_files": "T5, T6 with CRC on: one chunk per message (each of the first 4 chunks damaged in turn) and one chunk for everything; none and xor codec", "damage": "EVERY byte of the damaged chunk's stored payload replaced by a fresh symbolic byte at once (assumed not identical to the original): covers all bit flips, overwrites and same-length swaps inside the payload", "lexer": "ValidateChunkCRCs on, EmitInvalidChunks symbolic", "attachments": "name/media type 1 byte, data 3 bytes; times, name, data or all CRC-covered value bytes replaced by symbolic bytes; ComputeAttachmentCRCs on"},
+			"quick":    map[string]any{"chunk_files": "T5, T6 with CRC on: one chunk per message (each of the first 4 chunks damaged in turn) and one chunk for everything; none and xor codec (registered under a 3-byte and under a 22-byte compression name)", "damage": "EVERY byte of the damaged chunk's stored payload replaced by a fresh symbolic byte at once (assumed not identical to the original): covers all bit flips, overwrites and same-length swaps inside the payload", "lexer": "ValidateChunkCRCs on, EmitInvalidChunks symbolic", "attachments": "name/media type 1 byte, data 3 bytes; times, name, data or all CRC-covered value bytes replaced by symbolic bytes; ComputeAttachmentCRCs on"},
 			"thorough": map[string]any{"chunk_files": "T1,T2,T5,T6; chunk sizes 1/60/1000", "attachments": "three length classes"},
 		},
 		outside:     append([]string{"alterations that change a stored length field (payload length, string lengths)", "damage to chunk header fields other than the payload"}, outsideCommon...),
